@@ -364,6 +364,9 @@ def run_check(prop: str, tier: str, harness_filter=None, workers=None) -> int:
         for fn in os.listdir(rdir):
             if fn.startswith(prop + "-"):
                 os.unlink(os.path.join(rdir, fn))
+    prepared = None
+    if hasattr(mod, "prepare"):
+        prepared = mod.prepare(tier)  # e.g. build the compiled extension from the current sources
     ctx = mp.get_context("fork")
     pool = ctx.Pool(workers) if workers > 1 else None
     per = []
@@ -460,6 +463,8 @@ def run_check(prop: str, tier: str, harness_filter=None, workers=None) -> int:
         if pool is not None:
             pool.terminate()
             pool.join()
+        if hasattr(mod, "cleanup"):
+            mod.cleanup()
 
     # ---- evidence
     total_paths = sum(e["paths"] for e in per)
